@@ -148,7 +148,9 @@ def main():
              'kind_free_text': 'Lean 4 theorems over definitions regenerated from the C sources each run (tools/c2lean.py, harness/tabdump.c)'},
             {'name': M, 'path': '/verif/lean', 'serves_properties': [c['property_id'] for c in checks if c['engine'] == M],
              'kind_free_text': 'Lean 4 theorems over hand-written executable models (core Lean, compiled as ofmodel) + differential '
-                               'correspondence against the real library built from the current tree with ASan/UBSan + direct oracles'}],
+                               'correspondence against the real library built from the current tree with ASan/UBSan + direct oracles; several of these '
+                               'properties (C05, C09, C15, C18) also rest on definitions regenerated from the C sources each run (PRNG, argument validation of every '
+                               '*_set_fec_parameters and of the generic entry points, bit and column-mapping macros, popcount helpers)'}],
         'checks': checks,
         'notes': 'All checks: python3 bin/check.py <id> --tier quick|thorough; VERIF_SEED honoured; OPENFEC_REPO overrides /repo for '
                  'mutation self-tests. known_findings.json lists genuine defects (fixed ones suppress nothing).',
